@@ -63,7 +63,7 @@ from ser import Ids, Ser, Unsupported, ser, deser
 from props import c01 as K
 
 LEAN_MODULE = "Optyx.Props.C15"
-EXTRA_MODULES = ["Optyx.Props.PinsC15", "Optyx.Props.BuildTie", "Optyx.Props.GradIterTie"]   # transcription anchors (harness/source_pins.py)
+EXTRA_MODULES = ["Optyx.Props.PinsC15", "Optyx.Props.BuildTie", "Optyx.Props.GradIterTie", "Optyx.Props.SpineTie"]   # transcription anchors (harness/source_pins.py)
 THEOREMS = [
     "Optyx.Props.C15.gradIter_eq",
     "Optyx.Props.C15.gradIter_tree",
@@ -88,6 +88,12 @@ THEOREMS = [
     "Optyx.Props.GradIterTie.gstep_seen",
     "Optyx.Props.GradIterTie.gradIterOrder_text",
     "Optyx.Props.GradIterTie.gradIterFrame_text",
+    "Optyx.Props.SpineTie.depthC_step",
+    "Optyx.Props.SpineTie.depthE_step",
+    "Optyx.Props.SpineTie.spineBU_step",
+    "Optyx.Props.SpineTie.depthG_eq",
+    "Optyx.Props.SpineTie.compileSwitch_eq",
+    "Optyx.Props.SpineTie.getAllVariables_eq",
     "Optyx.Props.PinsC15.anchors",
 ]
 ASSUMPTIONS = [
